@@ -60,6 +60,7 @@ def run(ctx):
         "the catalogue is finite (listed in the evidence); in-place Hamming repair is exempt from the argument check",
         "pristine process = the library imported, no call made (children forked from such a parent); a second reference starts from an interpreter that has not imported the library",
         "clock shift by replacing datetime.date/datetime and time.time before the library is imported",
+        "an object handed to an observation (a CRC register to digest, a parsed document to as_xml / get_value, a numpy column to a parity helper) is an argument of that call: its value-based rendering is the same afterwards, so that the encode / digest after it returns what it would have returned without it",
     ]
     with open(os.path.join(ctx.rundir, "MC_Purity_run.cfg"), "w") as f:
         f.write(MCCFG)
